@@ -2,7 +2,10 @@ module verifharness
 
 go 1.24.2
 
-require example.com/scion-time v0.0.0
+require (
+	example.com/scion-time v0.0.0
+	github.com/scionproto/scion v0.12.0
+)
 
 require (
 	github.com/beorn7/perks v1.0.1 // indirect
@@ -24,7 +27,6 @@ require (
 	github.com/prometheus/procfs v0.16.0 // indirect
 	github.com/quic-go/quic-go v0.50.1 // indirect
 	github.com/remyoudompheng/bigfft v0.0.0-20230129092748-24d4a6f8daec // indirect
-	github.com/scionproto/scion v0.12.0 // indirect
 	github.com/uber/jaeger-client-go v2.30.0+incompatible // indirect
 	github.com/uber/jaeger-lib v2.4.1+incompatible // indirect
 	go.uber.org/atomic v1.11.0 // indirect
